@@ -37,7 +37,7 @@ def module(repo):
             ('C03.zwnj_back_cp', 'cp == cpo(s@, i as int)'),
             ('C03.zwnj_back_own', 'cpo(s@, offset as int) == 0x200c && !t_virama(cpo(s@, offset as int - 1))'),
             ('C03.zwnj_back_scan', 'scan_back(s@, offset as int - 1) == scan_back(s@, i as int)'),
-        ], decreases='i'),
+        ], decreases='i', head='proof { assert(scan_back(s@, i as int) == scan_back(s@, i as int - 1)); assert(scan_back(s@, -1) is None); }'),
         2: Loop(invariants=[
             ('C01+C03.zwnj_fwd_i', '(offset as int) < i && (i as int) < s@.len()'),
             ('C03.zwnj_fwd_cp', 'cp == cpo(s@, i as int)'),
